@@ -206,11 +206,14 @@ RetEff(addr, content, zero, prefix) ==
         /\ UNCHANGED <<mapped, pieces, peak, reps, hw, base>>
 
 \* the workload driver marks the end of a repetition (everything freed)
-RepEff ==
-    /\ reps' = Append(reps, [mark |-> Footprint, high |-> Max2(hw, Footprint)])
-    /\ hw' = Footprint
+\* (RepEffAt: the footprint as measured from outside - the process' address-space size in runs
+\* on the real OS, where `mapped` is not observed)
+RepEffAt(mark, high) ==
+    /\ reps' = Append(reps, [mark |-> mark, high |-> Max2(high, mark)])
+    /\ hw' = mark
     /\ obs' = [Obs0 EXCEPT !.ev = "rep"]
     /\ UNCHANGED <<mapped, pieces, live, call, plive, peak, base>>
+RepEff == RepEffAt(Footprint, hw)
 
 -----------------------------------------------------------------------------
 (* INVARIANTS - the properties.  Each is a state predicate over the abstract state and the   *)
